@@ -46,7 +46,11 @@ async def parse_expression_including_unresolved_subexpressions(
             raise SyntaxError(f"{ahb_syntax_error.msg} {condition_syntax_error.msg}")
     if resolve_packages:
         # the condition expression inside the ahb expression has to be resolved before trying to resolve packages
-        expression_tree = await expand_packages(expression_tree)
+        try:
+            expression_tree = await expand_packages(expression_tree)
+        except ValueError as value_error:
+            # a package with a repeatability n..m that violates 0<=n<=m, e.g. '[1P7..1]': the grammar accepts it, expand_packages does not
+            raise SyntaxError(f"The expression '{expression}' is not well-formed: {value_error}") from value_error
     if replace_time_conditions:
         expression_tree = expand_time_conditions(expression_tree)
     return expression_tree
